@@ -377,7 +377,7 @@ package values
 //@ requires fn: rv_valid(fn) && !rv_iface(fn) && kind(rv_val(fn)) == reflect.Func
 //@ assigns *
 //@ panics values.TypeError
-//@ ensures cells: sameold("P$Fn") && sameold("P$Val") && sameold("S$Val") && sameold("S$Fn") && sameold("M$has$Str$Val") && sameold("M$val$Str$Val") && sameold("F$expressions.context$Config") && sameold("F$expressions.context$bindings")
+//@ ensures cells: @evalframe
 //@ ensures parityErr: is(result1, *values.CallParityError) ==> pl_ptr(result1) != 0
 //@ ensures parity: !tvariadic(typeof(rv_val(fn))) && len(args) > tnumin(typeof(rv_val(fn))) ==> result1 != nil
 
